@@ -152,13 +152,26 @@ class StagePeer(object):
             self.msg = self.nmail
             self.nmail += 1
             self.sender = parse_path(line, len('MAIL FROM:<'))
-            self._serve('MAIL', 'MAIL')
+            code = self._serve('MAIL', 'MAIL')
+            self.mail_ok = isinstance(code, str) and code.startswith('2')
         elif verb == 'RCPT':
             addr = parse_path(line, len('RCPT TO:<'))
+            if not getattr(self, 'mail_ok', False):
+                # like a real server: no transaction is open
+                self.log.append((self.msg, 'RCPT%d' % self.nrcpt, '503'))
+                self.outbuf += b'503 5.5.1 need MAIL first\r\n'
+                self.nrcpt += 1
+                self.rcpts.append((addr, False))
+                return
             code = self._serve('RCPT%d' % self.nrcpt, 'RCPT')
             self.nrcpt += 1
             self.rcpts.append((addr, isinstance(code, str) and code.startswith('2')))
         elif verb == 'DATA':
+            if not getattr(self, 'mail_ok', False) or not any(ok for _, ok in self.rcpts):
+                if self.outcome('DATA') == '2xx':
+                    self.log.append((self.msg, 'DATA', '503'))
+                    self.outbuf += b'503 5.5.1 no valid recipients\r\n'
+                    return
             code = self._serve('DATA', 'DATA')
             if code == '354':
                 self.mode = 'data'
@@ -172,6 +185,7 @@ class StagePeer(object):
             self._serve('OTHER', 'OTHER')
 
     def _reset_tx(self):
+        self.mail_ok = False
         self.rcpts = []
         self.nrcpt = 0
         self.sender = None
